@@ -4,6 +4,9 @@ Require Extraction.
 Require Import ExtrOcamlBasic.
 From Coq Require Import List NArith Strings.String.
 From V Require Import Base.Bytes Base.Res Gen.Tables Model.Escape Spec.EscapeSpec Model.Ast Model.Html Spec.HtmlSpec Gen.Scanners.
+From V Require Import Base.Bytes Base.Res Gen.Tables Model.Escape Spec.EscapeSpec.
+From V Require Import Model.Anchor.
+From V Require Import Model.Ast Model.Footnotes Spec.FootnoteSpec.
 Extraction Language OCaml.
 Set Extraction KeepSingleton.
 
@@ -38,4 +41,21 @@ Extraction "model.ml"
   HtmlSpec.safe_ev
   HtmlSpec.s7
   Scanners.dangerous_url
+  Bytes.dec
+  Anchor.slug_ascii
+  Anchor.anchorize_fuel
+  Anchor.anchorize
+  Anchor.anchorize_all
+  Footnotes.process
+  Footnotes.no_nested_defs
+  Footnotes.no_ref_in_dropped_def
+  Footnotes.top_defs
+  FootnoteSpec.defs_at_root_tail
+  FootnoteSpec.refs_resolve
+  FootnoteSpec.defs_once_and_referenced
+  FootnoteSpec.backrefs_exact
+  FootnoteSpec.backrefs_subset
+  FootnoteSpec.nested_def
+  FootnoteSpec.all_refs
+  FootnoteSpec.first_seen
 .
